@@ -243,3 +243,13 @@ Proof.
     destruct (lookup_last cls u) as [x|] eqn:E; [exists x; reflexivity|].
     exfalso. exact (lookup_last_none cls u E id t Hin).
 Qed.
+
+Lemma ids_spec (cls : list bytes) :
+  NoDup (map fst (number_from 1 cls)) /\ map snd (number_from 1 cls) = cls
+  /\ (forall id c, In (id, c) (number_from 1 cls) -> 1 <= id /\ N.odd id = true)
+  /\ (forall i c, nth_error cls i = Some c -> nth_error (number_from 1 cls) i = Some (1 + 2 * N.of_nat i, c)).
+Proof.
+  split; [apply number_from_NoDup|]. split; [apply number_from_classes|]. split.
+  - intros id c H. destruct (number_from_ids 1 cls id c H) as [H1 [_ H3]]. split; [exact H1|exact H3].
+  - intros i c H. exact (number_from_nth 1 cls i c H).
+Qed.
